@@ -238,7 +238,7 @@ Proof. vm_compute. split; reflexivity. Qed.
    each theorem says that the model's definition IS that expression, for all arguments.  A change of the expression in the code
    breaks the obligation even when no sampled input distinguishes old and new behaviour. *)
 Theorem C02_tie_single_copy : forall I cv m,
-  single_copy_cv I cv m = if single_copy_zero (pcn I (fst m)) then 0%Q else single_copy_val (inZ (total cv m)) (pcn I (fst m)).
+  (single_copy_cv I cv m == if single_copy_zero (pcn I (fst m)) then 0%Q else single_copy_val (inZ (total cv m)) (pcn I (fst m)))%Q.
 Proof. exact single_copy_major_tied. Qed.
 Goal True. idtac "ASSUME C02_tie_single_copy". Abort.
 Print Assumptions C02_tie_single_copy.
